@@ -10,12 +10,15 @@ args = sys.argv[1:]
 if args and args[0] == "--runs":
     runs = args[1]; args = args[2:]
 jobs = []
+EXPECTED_MISS = set()      # documented misses (meta.json: expected_miss + why_not_caught): reported, not counted
 exp = json.load(open(os.path.join(ROOT, "selftest/mutants/EXPECT.json")))
 for name, checks in sorted(exp.items()):
     jobs.append((name, os.path.join(ROOT, "selftest/mutants", name), checks))
 for meta in sorted(glob.glob(os.path.join(ROOT, "seeded/*/meta.json"))):
     m = json.load(open(meta))
     jobs.append(("seeded/" + os.path.basename(os.path.dirname(meta)), os.path.join(os.path.dirname(meta), "patch.diff"), m.get("caught_by") or [m["property"]]))
+    if m.get("expected_miss"):
+        EXPECTED_MISS.add(jobs[-1][0])
 bad = 0
 for name, patch, checks in jobs:
     if args and not any(a in name for a in args):
@@ -34,6 +37,9 @@ for name, patch, checks in jobs:
             p = subprocess.run(cmd, env=env, capture_output=True, text=True, cwd=ROOT, timeout=3600)
             v = [l for l in p.stdout.splitlines() if l.startswith("violation ")]
             ok = p.returncode == 1 and "VIOLATION property=" in p.stdout
+            if name in EXPECTED_MISS:
+                print("%-40s %s rc=%d %s %s" % (name, c, p.returncode, "(documented miss)" if not ok else "CAUGHT (documented as a miss)", (v[0][:160] if v else "")))
+                continue
             print("%-40s %s rc=%d %s %s" % (name, c, p.returncode, "CAUGHT" if ok else "MISSED", (v[0][:160] if v else "")))
             if not ok:
                 bad += 1
